@@ -4,7 +4,7 @@
 
    Events (p, s, c are harness-chosen names of calls / subscriptions / closers):
      reset      persistent blocking
-     pubstart   p m topic payload meta after  pubend   p ok     (after: previous message's call in a multi-message Publish)
+     pubstart   p m topic payload meta after  pubend   p ok orig     (after: previous message's call in a multi-message Publish)
      substart   s topic neverack              subend   s ok chclosed
      recv       s m payload meta fresh ctxlive derived
      ack s m | nack s m                       (logged before the consumer settles)
@@ -30,7 +30,8 @@ TPubStart == /\ Is("pubstart")
              /\ IF cfg.persistent /\ closed # "closed"
                   THEN PublishStartLin(Ev.p, Ev.m, Ev.topic, Ev.payload, Ev.meta, Ev.after) /\ Adv
                   ELSE PublishStart(Ev.p, Ev.m, Ev.topic, Ev.payload, Ev.meta, Ev.after) /\ Adv
-TPubEnd   == Is("pubend") /\ (IF Ev.ok THEN PublishEndOk(Ev.p) ELSE PublishEndErr(Ev.p)) /\ Adv
+\* orig: the publisher's own message object is none of the Pub/Sub's business: it is as unsettled after Publish as before
+TPubEnd   == Is("pubend") /\ Ev.orig = "none" /\ (IF Ev.ok THEN PublishEndOk(Ev.p) ELSE PublishEndErr(Ev.p)) /\ Adv
 TSubStart == /\ Is("substart")
              /\ IF cfg.persistent /\ closed # "closed"
                   THEN SubscribeStartLin(Ev.s, Ev.topic, Ev.neverack) /\ Adv
